@@ -127,13 +127,23 @@ class QueryPlanner:
         #   main purpose: make tests working (don't change planner outputs)
         # can be removed in future (with adapting the tests) except 'cut integration part' block
 
+        # a table alias that is spelled like the integration: 'alias.column' is not 'integration.table'
+        aliases = set()
+
+        def _find_aliases(node, is_table, **kwargs):
+            if is_table and getattr(node, 'alias', None) is not None:
+                aliases.add(node.alias.parts[-1].lower())
+
+        query_traversal(query, _find_aliases)
+
         def _prepare_integration_select(node, is_table, is_target, parent_query, **kwargs):
             if not isinstance(node, Identifier):
                 return
 
             # cut integration part
             if len(node.parts) > 1 and node.parts[0].lower() == database:
-                node.parts.pop(0)
+                if is_table or not (len(node.parts) == 2 and database in aliases):
+                    node.parts.pop(0)
 
             if not hasattr(parent_query, 'from_table'):
                 return
